@@ -244,20 +244,26 @@ def run_tie(ck, tf, n_hist, profile, configs=CONFIGS, corpus=(), kwargs_for=None
     # histories - and what they are known to catch - stay what they were): what a check catches through a scenario does not depend on how the
     # scenario list or the random stream happens to be laid out
     upref = list(dict.fromkeys(profile.get("scenario_pref") or [])) if not profile.get("scenario_force") else []
-    n_forced = len(upref) * len(configs)
+    # (first the preferred ones, then every other scenario there is: all of them once per configuration; the second pass - CSV with inserts left in
+    # the handle's buffer, flush_on_insert=False - for the preferred ones only)
+    uall = (upref + [x for x in dbgen.SCENARIOS if x not in upref]) if upref else []
+    n_forced, n_pref = len(uall) * len(configs), len(upref) * len(configs)
     kw_override = {}
-    for h in range(n_hist + 2 * n_forced):
+    for h in range(n_hist + n_forced + n_pref):
         csv, auto = configs[h % len(configs)]
         kw = kwargs_for(h) if kwargs_for else None
+        forced = None
         if h >= n_hist + n_forced:
-            # ... and once more on the CSV configurations with inserts left in the handle's buffer (flush_on_insert=False)
             if not csv:
                 continue
             kw = {"flush_on_insert": False}
             kw_override[h] = kw
+            forced = upref[((h - n_hist - n_forced) // len(configs)) % len(upref)]
+        elif h >= n_hist:
+            forced = uall[((h - n_hist) // len(configs)) % len(uall)]
         prof = dict(profile, storage_kwargs=kw) if kw is not None else profile
-        if h >= n_hist:
-            prof = dict(prof, scenario_force=upref[((h - n_hist) // len(configs)) % len(upref)], p_scenario=1.0)
+        if forced:
+            prof = dict(prof, scenario_force=forced, p_scenario=1.0)
         g = dbgen.Gen((gen_seed << 20) + h, prof)
         ops = sanitize_for(kw if csv else None, g.history(csv))
         cases.append((csv, auto, ops, None))
